@@ -110,7 +110,10 @@ def register_tls(R):
             ("closed-event-set-by-the-first-closer", "implies(not old(self.__closing), self.__closed.flag)", "C14"),
         ]},
         modifies=["self.__closing", "self.__closed.flag", "self._transport.close_requested", "self._read_bio.eof", "self._write_bio.eof",
-                  "self._data_deque.items", "self.__incoming_reader.buffer", "self.__incoming_reader.buffer_view", "ghost.WIRE", "ghost.IN", "ghost.TLSOUT"],
+                  "self._data_deque.items", "self.__incoming_reader.buffer", "self.__incoming_reader.buffer_view", "ghost.WIRE", "ghost.IN", "ghost.TLSOUT",
+                  "ghost.tls_cause", "ghost.recv_calls", "ghost.EOF", "ghost.io_errors", "ghost.locks_held", "self._read_bio.pending", "self._write_bio.pending",
+                  "self.__transport_send_lock.held_by_me", "self.__transport_recv_lock.held_by_me", "self.__incoming_reader.buffer.data", ],
+        requires=[("transport-locks-free-at-entry", "not self.__transport_send_lock.held_by_me and not self.__transport_recv_lock.held_by_me")],
         tags="C14",
     )
 
@@ -132,7 +135,8 @@ def register_tls_wrap(R):
         raises={"BaseException": [
             ("failed-or-cancelled-handshake-closes-the-wrapped-transport", "transport.close_requested", "C14"),
         ]},
-        modifies=["transport.close_requested", "ghost.WIRE", "ghost.IN", "ghost.TLSOUT"],
+        modifies=["transport.close_requested", "ghost.WIRE", "ghost.IN", "ghost.TLSOUT", "ghost.tls_cause", "ghost.recv_calls", "ghost.EOF",
+                  "ghost.io_errors", "ghost.locks_held"],
         tags="C14",
     )
 
